@@ -10,6 +10,7 @@ delegate's `k`-th call delivers (`none` = the call returns an error).
 -/
 import SxVerif.Generated.Live
 import SxVerif.Generated.Problems
+import SxVerif.Generated.Constants
 import SxVerif.Proofs.Live5
 import SxVerif.Props.C01
 
@@ -21,6 +22,13 @@ theorem translator_clean : translatorProblems = [] := by decide
 /-- the live-generator translator (sxfacts/live.go) keeps its own problem list, so that a rewrite of
     this code breaks C19's obligations only -/
 theorem live_translator_clean : liveTranslatorProblems = [] := by decide
+
+/-- (T) "a pass has ended" means its last probe has been handed on: the arp wiring's delegate
+    (`ipRequestGenerator`) makes an UNBUFFERED request channel, and the filter and the live generator size
+    their outputs as `cap(requests)`, so the rescan timer is armed only after the consumer has taken the last
+    request of the pass (with a buffered delegate the timer would start while up to that many requests of the
+    pass are still waiting to be sent — measured by the `livechain` cases of component `live`) -/
+theorem arp_stream_unbuffered : capIPRequestChan = 0 := by decide
 
 /-- **T**: `liveRequestGenerator.GenerateRequests`, `readRequest`, `writeRequest` and the constructor,
     regenerated from pkg/scan/request.go, have exactly the shape `Model/Live.lean` transcribes: pass 0
